@@ -28,8 +28,11 @@
      pays for on the exact curve, and paid out more than the exact proceeds of that move - 1 - k (10^-18 + 10^-36 + 2 10^-24); U is the
      sum over the iterations of the input-token value of one unit (10^-36) of the sqrt price (ulp_in: L 10^-36 / (p_a p_b) token0,
      L 10^-36 token1; below 10^-12 at any realistic liquidity), k <= 2 * #ticks + 108.
-   * NOT proved: the same lower half for exact-OUT swaps (amount charged <= exact cost of B + slack; the oracle checks a loosened form),
-     and the equivalence of the tick-by-tick ideal walk of CL/Ideal.v with the potentials (C03_error_bounded_walk_form). *)
+   * the same for exact-OUT swaps, other way round (C03_exact_out_upper, C03_exact_out_sandwich_upper): the exact proceeds of the price move
+     made are less than A_out + 1 + k (10^-18 + 10^-36 + 2 10^-24) + U_out (U_out: the same price-unit value in the output token), and
+     (A_in - 1)(1 - f) - A_in 10^-18 - k (1 + 10^-18 + 2 10^-24) is less than the exact cost of that move: the swap does not charge more
+     than the exact curve asks for delivering A_out (plus the allowances).
+   * NOT proved: the equivalence of the tick-by-tick ideal walk of CL/Ideal.v with the potentials (C03_error_bounded_walk_form). *)
 From Coq Require Import ZArith QArith List Bool.
 Import ListNotations.
 From Osmo Require Import Base.DecModel Gen.CL_consts CL.TickMath CL.CLMath CL.CLPool CL.CLSwap CL.CLStep CL.Ideal.
@@ -209,6 +212,40 @@ Theorem C03_next_price_amount1_in_rev : forall cur liq amt next, 0 < liq -> 0 <=
 Proof. exact next_amount1_in_rev. Qed.
 Print Assumptions C03_fee_lt. Print Assumptions C03_next_price_amount0_in_rev.
 
+(* exact-out: every price c' that yields at least what the swap delivered plus the allowance `delivers_at_most`
+       A_out + 1 + k (1/10^18 + 1/10^36 + 2/10^24) + sum of ulp_out over the k iterations
+   costs more than what the swap charged less the allowance `charged_for` = (A_in - 1)(1 - f) - A_in/10^18 - k (1 + 2/10^24 + 1/10^18) *)
+Definition C03_error_bounded_out_full : Prop :=
+  forall s zfo accum amt r, Inv s -> 0 <= amt -> compute_in_amt_given_out s zfo accum amt = Some r ->
+    exists tr, chain (p_sqrt (s_pool s)) tr (sr_sqrt r) /\ Forall (seg_ok s zfo) tr /\ (length tr <= swap_fuel (s_ticks s))%nat /\
+      forall c', (delivers_at_most zfo (sr_out r) tr <= Eout zfo s (p_sqrt (s_pool s)) - Eout zfo s c')%Q ->
+                 (charged_for s (sr_in r) tr < Ein zfo s c' - Ein zfo s (p_sqrt (s_pool s)))%Q.
+Theorem C03_exact_out_upper : forall s zfo accum amt r, Inv s -> 0 <= amt ->
+  compute_in_amt_given_out s zfo accum amt = Some r ->
+  exists tr, chain (p_sqrt (s_pool s)) tr (sr_sqrt r) /\ Forall (seg_ok s zfo) tr /\ (length tr <= swap_fuel (s_ticks s))%nat /\
+    (Eout zfo s (p_sqrt (s_pool s)) - Eout zfo s (sr_sqrt r) < delivers_at_most zfo (sr_out r) tr)%Q /\
+    (charged_for s (sr_in r) tr < Ein zfo s (sr_sqrt r) - Ein zfo s (p_sqrt (s_pool s)))%Q.
+Proof. exact exact_out_upper. Qed.
+Print Assumptions C03_exact_out_upper.
+Theorem C03_exact_out_sandwich_upper : C03_error_bounded_out_full.
+Proof. exact exact_out_sandwich_upper. Qed.
+Print Assumptions C03_exact_out_sandwich_upper.
+Theorem C03_allowances_out : forall s zfo tin tout tr,
+  (charged_for s tin tr == (qz tin - 1) * (1 - qz (p_spread (s_pool s)) / q18) - qz tin / q18
+                           - qz (Z.of_nat (length tr)) * (1 + 2 / qz (10 ^ 24) + 1 / q18))%Q /\
+  (delivers_at_most zfo tout tr == qz tout + 1 + qz (Z.of_nat (length tr)) * (1 / q18 + 1 / (q18 * q18) + 2 / qz (10 ^ 24)) + qsum (ulp_out zfo) tr)%Q /\
+  (forall sg, ulp_out zfo sg == if zfo then qz (sg_liq sg) / (q18 * (q18 * q18)) else qz (sg_liq sg) * q18 / (qz (sg_a sg) * qz (sg_b sg)))%Q.
+Proof. intros. split; [reflexivity|]. split; [reflexivity|]. intros sg. destruct zfo; reflexivity. Qed.
+(* the exact-out next-price formulas do not move further than one price unit beyond what delivers the amount *)
+Theorem C03_next_price_amount1_out_rev : forall cur liq amt next, 0 < liq -> 0 <= amt ->
+  next_sqrt_price_amount1_out_round_down cur liq amt = Some next -> liq * (cur - next) < amt * P18 + liq.
+Proof. exact next_amount1_out_rev. Qed.
+Theorem C03_next_price_amount0_out_rev : forall cur liq36 amt18 next, 0 < liq36 -> 0 < cur -> 0 <= amt18 -> 0 < next ->
+  next_sqrt_price_amount0_out_round_up cur liq36 amt18 = Some next ->
+  liq36 * (next - cur) * P36 < amt18 * P18 * next * cur + P36 * (next + P36 + liq36).
+Proof. exact next_amount0_out_rev. Qed.
+Print Assumptions C03_next_price_amount0_out_rev.
+
 Definition C03_there_and_back_full : Prop :=
   forall s sender zfo amt s1 out s2 back, Inv s ->
     swap_exact_in s sender zfo amt 1 = Some (s1, out) -> swap_exact_in s1 sender (negb zfo) out 1 = Some (s2, back) -> back <= amt.
@@ -239,12 +276,12 @@ Definition C03_full : Prop :=
        (qsum (ideal_in_of zfo) tr - in_slack zfo * qz (Z.of_nat (length tr)) <= qz (sr_in r) * (1 - spread_q (reach sp spf sc t0 users ops)))%Q) /\
   (forall s sender zfo amt min_out s' out, swap_exact_in s sender zfo amt min_out = Some (s', out) -> calc_out_given_in s zfo amt = Some out) /\
   (forall s sender zfo amt max_in s' tin, swap_exact_out s sender zfo amt max_in = Some (s', tin) -> calc_in_given_out s zfo amt = Some tin) /\
-  C03_error_bounded_full /\ C03_there_and_back_full.
+  C03_error_bounded_full /\ C03_error_bounded_out_full /\ C03_there_and_back_full.
 
-(* every clause is proved (the error-bound clause in the potential form above, for exact-in swaps) *)
+(* every clause is proved (the error-bound clauses in the potential form above) *)
 Theorem C03_full_proved : C03_full.
 Proof.
-  split; [|split; [exact estimate_eq_execute_in|split; [exact estimate_eq_execute_out|split; [exact exact_in_sandwich_lower|exact C03_there_and_back]]]].
+  split; [|split; [exact estimate_eq_execute_in|split; [exact estimate_eq_execute_out|split; [exact exact_in_sandwich_lower|split; [exact exact_out_sandwich_upper|exact C03_there_and_back]]]]].
   intros sp spf sc t0 users ops zfo accum amt r H1 H2 Ha H.
   destruct (exact_in_vs_ideal _ _ _ _ _ (reach_inv _ _ _ _ _ _ H1 H2) Ha H) as [tr [A [B [C [D _]]]]].
   exists tr. repeat split; assumption.
